@@ -4,9 +4,9 @@
     Reading guide.  [final ops] is the model's state after the history [ops]; [mrun ops] its canonical
     outputs; [snapshot_ok] the specification (Mvcc/Spec.v); [c01_k c] "finding class c explains a failure
     of this history" (Mvcc/Run.v).  HEAD violates the property: the [_refuted] theorems give one history
-    per class; [snapshot_outside_K_partial] says that the classes are all there is. *)
+    per class; [snapshot_outside_K] says that the classes are all there is. *)
 From GV Require Export Mvcc.Model Mvcc.Canon Mvcc.Spec Mvcc.Run.
-From GV Require Export Mvcc.ProofsVis Mvcc.ProofsInv Mvcc.ProofsThm Mvcc.ProofsSpec Mvcc.ProofsRefuted.
+From GV Require Export Mvcc.ProofsVis Mvcc.ProofsInv Mvcc.ProofsThm Mvcc.ProofsSpec Mvcc.ProofsExpand Mvcc.ProofsRefuted.
 From Coq Require Export ZArith List Bool.
 Export ListNotations.
 Open Scope Z_scope.
@@ -108,18 +108,33 @@ Theorem rdf_refines_spec : forall ops, rdf (final ops) = d_trip (s_comm (spec_fi
 Proof. exact rdf_refines_l. Qed.
 Print Assumptions rdf_refines_spec.
 
-(** *** the finding classes cover every deviation (all read kinds except Expand: [_partial]) *)
-Theorem read_deviation_classified : forall st sp s k, paired st sp -> c01_kind k = true ->
-  classify_read st sp s k = 0 -> out_eqb (spec_expected sp s k) (canon (read st s k)) = true.
-Proof. exact read_class_total. Qed.
+(** *** two structural facts about every history that the Expand read kind rests on: the adjacency lists hold
+    exactly the endpoints of the edge records in id order, and every edge of the specification's committed
+    database and of every session's view is an edge record of the model *)
+Theorem adjacency_lists_are_edge_records : forall ops a,
+  fwd (final ops) a = flat_map (fwd_of (final ops) a) (range (e_next (final ops)))
+  /\ bwd (final ops) a = flat_map (bwd_of (final ops) a) (range (e_next (final ops))).
+Proof. intros ops a. split; [apply (a_fwd _ (adj_final ops))|apply (a_bwd _ (adj_final ops))]. Qed.
+Print Assumptions adjacency_lists_are_edge_records.
+
+Theorem spec_edges_are_edge_records : forall ops s x r,
+  d_edge (view_of (spec_final ops) s) x = Some r -> 0 <= x < e_next (final ops) /\ r = e_rec (final ops) x.
+Proof. intros ops s. exact (eok_view _ _ s (epaired_final ops)). Qed.
+Print Assumptions spec_edges_are_edge_records.
+
+(** *** the finding classes cover every deviation: a read (of any kind, at any point of any history) whose
+    class is 0 returns the specification's answer; a history in which no class 1..7 fires satisfies the
+    specification *)
+Theorem read_deviation_classified : forall ops s k,
+  classify_read (final ops) (spec_final ops) s k = 0 ->
+  out_eqb (spec_expected (spec_final ops) s k) (canon (read (final ops) s k)) = true.
+Proof. exact read_deviation_classified_l. Qed.
 Print Assumptions read_deviation_classified.
 
-(* full statement (to do: the Expand read kind, see level_note):
-     forall ops, (forall c, 1 <= c <= 6 -> c01_k c ops (mrun ops) = false) -> snapshot_ok ops (mrun ops) = true *)
-Theorem snapshot_outside_K_partial : forall ops, c01_history ops = true ->
-  (forall c, 1 <= c <= 6 -> c01_k c ops (mrun ops) = false) -> snapshot_ok ops (mrun ops) = true.
-Proof. exact snapshot_outside_K_noexpand_l. Qed.
-Print Assumptions snapshot_outside_K_partial.
+Theorem snapshot_outside_K : forall ops,
+  (forall c, 1 <= c <= 7 -> c01_k c ops (mrun ops) = false) -> snapshot_ok ops (mrun ops) = true.
+Proof. exact snapshot_outside_K_l. Qed.
+Print Assumptions snapshot_outside_K.
 
 (** *** HEAD violates the property: one witness per class (replayed on the implementation by every run) *)
 Theorem k1_refuted : exists ops, c01_k 1 ops (mrun ops) = true /\ snapshot_ok ops (mrun ops) = false.
@@ -140,20 +155,34 @@ Print Assumptions k5_refuted.
 Theorem k6_refuted : exists ops, c01_k 6 ops (mrun ops) = true /\ snapshot_ok ops (mrun ops) = false.
 Proof. exists w_k6. exact k6_refuted_l. Qed.
 Print Assumptions k6_refuted.
+Theorem k7_refuted : exists ops, c01_k 7 ops (mrun ops) = true /\ snapshot_ok ops (mrun ops) = false.
+Proof. exists w_k7. exact (proj1 k7_refuted_l). Qed.
+Print Assumptions k7_refuted.
 
 (** *** non-vacuity *)
 (** histories outside every class exist, with reads strictly inside another session's open transaction,
     a writer that creates nodes and commits / buffers triples and rolls back or commits *)
 Example nv_outside_K :
-  (forall c, 1 <= c <= 6 -> c01_k c w_clean_later_starter (mrun w_clean_later_starter) = false)
+  (forall c, 1 <= c <= 7 -> c01_k c w_clean_later_starter (mrun w_clean_later_starter) = false)
   /\ snapshot_ok w_clean_later_starter (mrun w_clean_later_starter) = true
-  /\ c01_history w_clean_rdf = true
-  /\ (forall c, 1 <= c <= 6 -> c01_k c w_clean_rdf (mrun w_clean_rdf) = false).
+  /\ (forall c, 1 <= c <= 7 -> c01_k c w_clean_rdf (mrun w_clean_rdf) = false)
+  /\ (forall c, 1 <= c <= 7 -> c01_k c w_clean_expand (mrun w_clean_expand) = false).
 Proof.
-  destruct clean_examples_l as [H1 [H2 [H3 H4]]].
+  destruct clean_examples_l as [H1 [H2 [H3 H4]]]. destruct clean_expand_l as [H5 _].
   split; [intros c _; unfold c01_k; rewrite H1; reflexivity|].
-  split; [exact H2|]. split; [reflexivity|]. intros c _. unfold c01_k. rewrite H3. reflexivity.
+  split; [exact H2|]. split; intros c _; unfold c01_k; [rewrite H3|rewrite H5]; reflexivity.
 Qed.
+(** the clean expand history really expands: the writer sees its own edge (a self-loop twice under an undirected
+    pattern), the reader's typed undirected expand returns the committed self-loop *)
+Example nv_expand :
+  nth 9 (mrun w_clean_expand) OErr = ORows [(0, 0, 1); (0, 2, 1); (1, 0, 0); (1, 1, 1); (1, 1, 1); (1, 2, 0)]
+  /\ nth 12 (mrun w_clean_expand) OErr = ORows [(1, 1, 1); (1, 1, 1)].
+Proof. exact (proj2 (proj2 clean_expand_l)). Qed.
+(** expand deviations land in the classes: edge of an open transaction (1), in-place delete (3), store epoch (4) *)
+Example nv_expand_classes :
+  c01_fails w_expand_k1 (mrun w_expand_k1) = [(4, 1)] /\ c01_fails w_expand_k3 (mrun w_expand_k3) = [(5, 3)]
+  /\ c01_fails w_expand_k4 (mrun w_expand_k4) = [(5, 4)].
+Proof. exact expand_classes_l. Qed.
 (** a later starter: the reader's snapshot (epoch 0) precedes the writer's begin (epoch 1) *)
 Example nv_later_starter :
   let st := final [CreateNode 9 [0] []; Begin 1; Begin 2; Commit 2; Begin 0; CreateNode 0 [0] []] in
